@@ -156,9 +156,27 @@ func sequential(c *vf.Ctx, si int) {
 	chain := [][]byte{first.Block}
 	var trace []string
 	gp := big.NewInt(50000000000)
+	// the last account also sends under a registered name: the pool files such a tx under the account the name
+	// resolves to, the tx itself carries the name
+	alias := fmt.Sprintf("c13alias%04d", si%10000)
+	named := nacct - 1
+	{
+		ntx := rig.TxSpec{Type: types.TxType_GOVERNANCE, From: w.Accts[named], To: []byte(types.AergoName), Nonce: 1, Amount: rig.Aergo, Payload: rig.GovPayload("v1createName", alias), GasPrice: gp, ChainID: w.CIDHash(2)}.Build()
+		rsp, err := nut.Produce(&rig.ProduceReq{Txs: [][]byte{rig.EncTx(ntx)}, Connect: true, Confirms: -1, SignKey: 0})
+		if err != nil || rsp.AddErr != "" || rsp.GenErr != "" || len(rsp.Included) != 1 || rsp.Receipts[0].Status != "SUCCESS" {
+			c.Inconclusive(name + ": name registration failed")
+			return
+		}
+		chain = append(chain, rsp.Block)
+		state[named] = 1
+	}
 	mk := func(a int, nonce uint64, variant int) *types.Tx {
 		b, _ := nut.Best()
-		return rig.TxSpec{Type: types.TxType_TRANSFER, From: w.Accts[a], To: w.Accts[4].Addr, Nonce: nonce, Amount: big.NewInt(int64(1 + variant)), GasPrice: gp, ChainID: w.CIDHash(b.No + 1)}.Build()
+		sp := rig.TxSpec{Type: types.TxType_TRANSFER, From: w.Accts[a], To: w.Accts[4].Addr, Nonce: nonce, Amount: big.NewInt(int64(1 + variant%2)), GasPrice: gp, ChainID: w.CIDHash(b.No + 1)}
+		if a == named && variant >= 2 {
+			sp.Account = []byte(alias)
+		}
+		return sp.Build()
 	}
 	fail := func(key, msg string) {
 		c.Violation("seq/"+key, fmt.Sprintf("%s after ops %v:\n  %s", name, tail(trace, 25), msg), map[string]interface{}{"scenario": name, "ops": trace})
@@ -183,6 +201,9 @@ func sequential(c *vf.Ctx, si int) {
 		for _, tb := range got {
 			tx := rig.DecTx(tb)
 			id := hex.EncodeToString(tx.Body.Account)
+			if string(tx.Body.Account) == alias {
+				id = hex.EncodeToString(w.Accts[named].Addr)
+			}
 			offered[id] = append(offered[id], tx.Body.Nonce)
 		}
 		for a := 0; a < nacct; a++ {
@@ -258,6 +279,9 @@ func sequential(c *vf.Ctx, si int) {
 				n = state[a] - uint64(r.Intn(2))
 			}
 			variant := r.Intn(2)
+			if a == named && r.Intn(2) == 0 {
+				variant += 2 // under the name
+			}
 			tx := mk(a, n, variant)
 			_, dupHash := findHash(model, tx.Hash)
 			_, sameNonce := model[a][n]
